@@ -80,6 +80,8 @@ def coq_ty(t):
         return "unit"
     if t == "dict":
         return "(list (Z * Z))"
+    if t == "cap":
+        return "(option Z)"
     if isinstance(t, tuple) and t[0] == "opt":
         return f"(option {coq_ty(t[1])})"
     if isinstance(t, tuple) and t[0] == "list":
@@ -97,6 +99,9 @@ class Cls:
         self.oracles = {k: parse_ty(v) for k, v in spec.get("oracles", {}).items()}
         self.total_ordering = spec.get("total_ordering", False)
         self.consts = spec.get("consts", {})      # attribute name -> (coq text, type): configuration read-only fields
+        self.heaps = set(spec.get("heaps", ()))   # list fields only touched through heapq (rendered as sorted lists)
+        self.oracle_fns = set(spec.get("oracle_fns", ()))
+        self.dataclass_order = spec.get("dataclass_order", False)
         self.node = None
         for n in ast.walk(tree):
             if isinstance(n, ast.ClassDef) and n.name == self.name:
@@ -120,6 +125,58 @@ class Translator:
     def gensym(self, base):
         self.fresh += 1
         return f"{base}_{self.fresh}"
+
+    def dataclass_lt(self, cls: Cls) -> str:
+        """`@dataclass(order=True)`: the generated __lt__ compares, lexicographically and in declaration order, the
+        fields that are not declared with field(compare=False).  Read from the class body, so that a change of the
+        decorator, of the field order or of a compare flag changes the regenerated definition."""
+        n = cls.node
+        ok = False
+        for d in n.decorator_list:
+            if isinstance(d, ast.Call) and ast.unparse(d.func) in ("dataclass", "dataclasses.dataclass"):
+                for kw in d.keywords:
+                    if kw.arg == "order" and isinstance(kw.value, ast.Constant) and kw.value.value is True:
+                        ok = True
+                    elif kw.arg not in ("order", "frozen", "slots"):
+                        raise Unsupported(f"{cls.name}: dataclass option {kw.arg}")
+        if not ok:
+            raise Unsupported(f"{cls.name}: not a dataclass(order=True)")
+        if any(m in cls.defs for m in ("__lt__", "__le__", "__gt__", "__ge__", "__eq__")):
+            raise Unsupported(f"{cls.name}: dataclass with hand-written comparison methods")
+        names, cmpf = [], []
+        for st in n.body:
+            if isinstance(st, ast.AnnAssign) and isinstance(st.target, ast.Name):
+                names.append(st.target.id)
+                compare = True
+                if st.value is not None:
+                    v = st.value
+                    if not (isinstance(v, ast.Call) and ast.unparse(v.func) in ("field", "dataclasses.field")):
+                        raise Unsupported(f"{cls.name}.{st.target.id}: default value")
+                    for kw in v.keywords:
+                        if kw.arg == "compare" and isinstance(kw.value, ast.Constant):
+                            compare = bool(kw.value.value)
+                        else:
+                            raise Unsupported(f"{cls.name}.{st.target.id}: field option {kw.arg}")
+                if compare:
+                    cmpf.append(st.target.id)
+            elif isinstance(st, ast.Expr) and isinstance(st.value, ast.Constant):
+                continue
+            elif isinstance(st, ast.FunctionDef):
+                continue
+            else:
+                raise Unsupported(f"{cls.name}: class body statement `{ast.unparse(st)[:60]}`")
+        if names != list(cls.fields):
+            raise Unsupported(f"{cls.name}: dataclass fields {names} differ from the declared fields {list(cls.fields)}")
+        if not cmpf or any(cls.fields[f] not in ZLIKE for f in cmpf):
+            raise Unsupported(f"{cls.name}: compared fields must be integers")
+        txt = "false"
+        for f in reversed(cmpf):
+            a, b = f"({cls.fld(f)} self)", f"({cls.fld(f)} other)"
+            txt = f"(({a} <? {b}) || (({a} =? {b}) && {txt}))"
+        self.sigs[(cls.name, "__lt__")] = ([("other", cls.name)], "B", True, False, [])
+        cls.methods = dict(cls.methods, __lt__=dict(params={"other": cls.name}, pure=True, synthetic=True))
+        return (f"(** generated by @dataclass(order=True): lexicographic on ({', '.join(cmpf)}) *)\n"
+                f"Definition {cls.name}___lt__ (self : {cls.name}) (other : {cls.name}) : bool :=\n  {txt}.\n")
 
     # ------------------------------------------------------------ methods
     def method(self, cls: Cls, name: str) -> str:
@@ -183,7 +240,10 @@ class MethodCtx:
         fn = self.cls.defs[self.name]
         # the l[0] inside `while l and l[0] < c` (drop-while idiom) is guarded by the truthiness test: not a raising read
         guarded = {id(x) for w in ast.walk(fn) if isinstance(w, ast.While) for x in ast.walk(w.test)}
+        # (the pop(0) of the drop-while idiom is guarded by its own loop test; other while loops are rejected anyway)
+        inwhile = {id(x) for w in ast.walk(fn) if isinstance(w, ast.While) for x in ast.walk(w)}
         return any(isinstance(n, ast.Raise) for n in ast.walk(fn)) or self._calls_raising(fn) \
+            or any(self._list_pop(n) is not None and id(n) not in inwhile for n in ast.walk(fn)) \
             or any(self._is_dict_read(n, None) and id(n) not in guarded for n in ast.walk(fn)) \
             or any(isinstance(n, ast.AugAssign) and self._is_dict_read(self._as_load(n.target), None) for n in ast.walk(fn))
 
@@ -202,6 +262,43 @@ class MethodCtx:
             t = env.locals.get(v.id) if env is not None else dict(self.params).get(v.id)
         return t == "dict" or (isinstance(t, tuple) and t[0] == "list")
 
+    def _list_pop(self, e):
+        """self.<list field>.popleft() / .pop() / .pop(0) / heapq.heappop(self.<list field>) used for its VALUE
+        -> (field, 'first' | 'last'); an empty list is an IndexError (the method result is None)."""
+        if not isinstance(e, ast.Call) or e.keywords:
+            return None
+
+        def fld(x):
+            if isinstance(x, ast.Attribute) and isinstance(x.value, ast.Name) and x.value.id == "self":
+                ft = self.cls.fields.get(x.attr)
+                if isinstance(ft, tuple) and ft[0] == "list":
+                    return x.attr
+            return None
+        if isinstance(e.func, ast.Attribute) and ast.unparse(e.func) == "heapq.heappop" and len(e.args) == 1:
+            f = fld(e.args[0])
+            return (f, "first") if f and f in self.cls.heaps else None
+        if isinstance(e.func, ast.Attribute):
+            f = fld(e.func.value)
+            if f is None or f in self.cls.heaps:
+                return None
+            if e.func.attr == "popleft" and not e.args:
+                return (f, "first")
+            if e.func.attr == "pop" and len(e.args) == 1 and isinstance(e.args[0], ast.Constant) and e.args[0].value == 0:
+                return (f, "first")
+            if e.func.attr == "pop" and not e.args:
+                return (f, "last")
+        return None
+
+    def pop_bind(self, f, end, var, k):
+        """bind `var` to the element removed from list field f, continue with text k (self already updated)."""
+        self.raises = True
+        fld = self.cls.fld(f)
+        if end == "first":
+            return (f"match {fld} self with\n| [] => None\n| {var} :: rest_ =>\n"
+                    f"    let self := set_{fld} self rest_ in\n{textwrap.indent(k, '    ')}\nend")
+        return (f"match py_pop_last ({fld} self) with\n| None => None\n| Some (rest_, {var}) =>\n"
+                f"    let self := set_{fld} self rest_ in\n{textwrap.indent(k, '    ')}\nend")
+
     def hoist_dict_reads(self, nodes, env):
         """Replace every d[k] read inside `nodes` by a fresh local; returns (new nodes, env', [(var, d_txt, k_txt)]).
         A missing key is Python's KeyError: the method result is None (exception; object state not described)."""
@@ -214,6 +311,9 @@ class MethodCtx:
             def visit_Subscript(self, n):
                 n = self.generic_visit(n)
                 if ctx._is_dict_read(n, env2):
+                    if isinstance(n.value, ast.Attribute) and n.value.attr in ctx.cls.heaps \
+                            and not (isinstance(n.slice, ast.Constant) and n.slice.value == 0):
+                        _u(n, "a heap field may only be read at position 0")
                     d, dt = ctx.expr(n.value, env2)
                     k, kt = ctx.expr(n.slice, env2)
                     if kt not in ZLIKE:
@@ -309,6 +409,30 @@ class MethodCtx:
             if mode != "method":
                 _u(s, "d[k] read inside a loop body")
             return self.wrap_binds(binds, self.block([s2] + list(rest), env2, mode))
+        if isinstance(s, (ast.Return, ast.Assign, ast.Expr)) and self._list_pop(getattr(s, "value", None)) is not None:
+            # x = self.L.popleft() / return self.L.pop() / x = heapq.heappop(self.H): remove and bind the element
+            if self.pure:
+                _u(s, "pure method removes a list element")
+            if mode != "method":
+                _u(s, "list pop inside a loop")
+            f, end = self._list_pop(s.value)
+            ft = self.cls.fields[f]
+            env2 = env.copy()
+            env2.mutated = True
+            env2.narrow = {p: v for p, v in env2.narrow.items() if not p.startswith("self.")}
+            if isinstance(s, ast.Assign):
+                if not (len(s.targets) == 1 and isinstance(s.targets[0], ast.Name)) or s.targets[0].id == "self":
+                    _u(s, "popped element assigned to a non-local")
+                v = s.targets[0].id
+                env2.locals[v] = ft[1]
+                env2.narrow.pop(v, None)
+                return self.pop_bind(f, end, v, self.block(rest, env2, mode))
+            v = self.tr.gensym("popped")
+            env2.locals[v] = ft[1]
+            if isinstance(s, ast.Expr):
+                return self.pop_bind(f, end, v, self.block(rest, env2, mode))
+            ret = ast.copy_location(ast.Return(value=ast.Name(id=v, ctx=ast.Load())), s)
+            return self.pop_bind(f, end, v, self.block([ret], env2, mode))
         if isinstance(s, (ast.Return, ast.Assign)) and self._is_impure_self_call(getattr(s, "value", None)):
             # `return self.m(..)` / `x = self.m(..)` with a state-changing m: bind the new self and the result
             if isinstance(s, ast.Assign) and not (len(s.targets) == 1 and isinstance(s.targets[0], ast.Name)):
@@ -551,6 +675,24 @@ class MethodCtx:
 
     # -- expression statements -----------------------------------------
     def expr_stmt(self, e, rest, env, mode):
+        if isinstance(e, ast.Call) and isinstance(e.func, ast.Attribute) and ast.unparse(e.func) == "heapq.heappush" \
+                and len(e.args) == 2 and not e.keywords:
+            h = e.args[0]
+            if not (isinstance(h, ast.Attribute) and isinstance(h.value, ast.Name) and h.value.id == "self" and h.attr in self.cls.heaps):
+                _u(e, "heappush on something that is not a declared heap field of self")
+            f = h.attr
+            ft = self.cls.fields[f]
+            ec = self.tr.classes.get(ft[1])
+            if ec is None or (ec.name, "__lt__") not in self.tr.sigs:
+                _u(e, "heap elements need a translated __lt__")
+            if self.pure:
+                _u(e, "pure method pushes on a heap")
+            x, xt = self.expr(e.args[1], env)
+            self.coerce(x, xt, ft[1], e)
+            env = env.copy()
+            env.mutated = True
+            return (f"let self := set_{self.cls.fld(f)} self (py_heappush {ec.name}___lt__ ({self.cls.fld(f)} self) {x}) in\n"
+                    + self.block(rest, env, mode))
         if isinstance(e, ast.Call) and isinstance(e.func, ast.Attribute):
             recv = e.func.value
             # self.method(...)
@@ -585,9 +727,13 @@ class MethodCtx:
                         self.raises = True
                         return f"match {callee} with\n| None => None\n| Some ({tmp}, _) =>\n{textwrap.indent(k, '    ')}\nend"
                     return f"let '({tmp}, _) := {callee} in\n{k}"
+                if isinstance(ft, tuple) and ft[0] == "list" and f in self.cls.heaps:
+                    _u(e, "a heap field is only touched through heapq.heappush / heappop")
                 if isinstance(ft, tuple) and ft[0] == "list":
                     env = env.copy()
                     env.mutated = True
+                    if self.pure:
+                        _u(e, "pure method changes a list field")
                     if e.func.attr == "append" and len(e.args) == 1:
                         x, xt = self.expr(e.args[0], env)
                         self.coerce(x, xt, ft[1], e)
@@ -835,6 +981,14 @@ class MethodCtx:
         if isinstance(e.value, ast.Name) and e.value.id == "self" and e.attr in self.cls.consts:
             txt, t = self.cls.consts[e.attr]
             return txt, parse_ty(t)
+        if isinstance(e.value, ast.Name) and e.value.id == "self" and e.attr not in self.cls.fields \
+                and (self.cls.name, e.attr) in self.tr.sigs and e.attr in self.cls.defs \
+                and "property" in [ast.unparse(d) for d in self.cls.defs[e.attr].decorator_list]:
+            # a property of self (translated as a pure method without parameters)
+            params, ret, pure, raises, oracles = self.tr.sigs[(self.cls.name, e.attr)]
+            if pure and not raises and not oracles and not params:
+                return f"({self.cls.name}_{e.attr} self)", ret
+            _u(e, "property of self that is not a pure total method")
         if p is not None and not (isinstance(e.value, ast.Name) and env.locals.get(e.value.id) in ("I", "D")):
             txt, t = self.raw_path(e, env)
             return txt, t
@@ -920,6 +1074,16 @@ class MethodCtx:
             if m is None:
                 _u(node, "float equality is not translated")
             return f"({m})"
+        if "cap" in (at, bt) and (at in ZLIKE or bt in ZLIKE):
+            # an integer compared with a capacity (float("inf") = None, or an integer)
+            if at == "cap":
+                a, b = b, a
+                op = {ast.Lt: ast.Gt, ast.Gt: ast.Lt, ast.LtE: ast.GtE, ast.GtE: ast.LtE}.get(type(op), type(op))()
+            if isinstance(op, ast.GtE):
+                return f"(py_cap_le {b} {a})"
+            if isinstance(op, ast.Lt):
+                return f"(negb (py_cap_le {b} {a}))"
+            _u(node, "comparison of an integer with a capacity other than >= / <")
         if at in ZLIKE and bt in ZLIKE:
             m = {ast.Lt: "<?", ast.LtE: "<=?", ast.Gt: ">?", ast.GtE: ">=?", ast.Eq: "=?"}.get(type(op))
             if m:
@@ -1068,7 +1232,10 @@ class MethodCtx:
                     return f"(nanos O {x})", "D"
                 _u(e, "Duration.from_seconds of a non-float")
             if isinstance(f.value, ast.Name) and f.value.id == "self":
-                if f.attr in self.cls.oracles and not e.args:
+                if f.attr in self.cls.oracles and (not e.args or f.attr in self.cls.oracle_fns):
+                    # (an oracle listed under oracle_fns takes arguments: its result is an arbitrary value per call site)
+                    for a in e.args:
+                        self.expr(a, env)
                     nm = self.tr.gensym(f.attr.strip("_"))
                     self.oracle_params.append((nm, self.cls.oracles[f.attr]))
                     return nm, self.cls.oracles[f.attr]
@@ -1128,7 +1295,11 @@ def translate_target(repo: str, target: dict) -> str:
     tr = Translator(classes, fc)
     body = []
     for c in order:
-        for m in c.methods:
+        if c.dataclass_order:
+            body.append(tr.dataclass_lt(c))
+        for m in list(c.methods):
+            if (c.methods[m] or {}).get("synthetic"):
+                continue
             body.append(tr.method(c, m))
     files = sorted({s["file"] for s in target["classes"]})
     txt = PRELUDE.format(repo_files=", ".join(files), tie=target.get("tie", "")) + target["header"] + "\nLocal Open Scope Z_scope.\n"
